@@ -104,7 +104,23 @@ type largeStats struct {
 	maxDup            int
 }
 
-func runLarge(sc *LargeScenario) (st largeStats, err error) {
+// runLarge runs the scenario inside a bubble: a call that blocks (a Next that finds nothing although the
+// model holds pending items) is a bubble deadlock, a call that waits for a lock for ever is the lock watch's.
+func runLarge(t *testing.T, sc *LargeScenario) (st largeStats, err error) {
+	step := 0
+	setWhereFunc(func() string { return "a call of a long single-goroutine history (Insert/Next/Len/Close)" })
+	defer func() {
+		if r := recover(); r != nil {
+			err = newVerr("blocked-call", "call %d of the history did not return (glog verbosity %d): %v", step, vstat.GlogV(), r)
+		}
+	}()
+	synctest.Test(t, func(*testing.T) {
+		st, err = runLargeBubble(sc, &step)
+	})
+	return st, err
+}
+
+func runLargeBubble(sc *LargeScenario, stepp *int) (st largeStats, err error) {
 	defer func() {
 		if r := recover(); r != nil {
 			err = newVerr("panic", "panic: %v", r)
@@ -117,6 +133,7 @@ func runLarge(sc *LargeScenario) (st largeStats, err error) {
 	pending := map[int]bool{}
 	appended := 0
 	step := 0
+	defer func() { *stepp = step }()
 	insert := func(x int) error {
 		step++
 		fresh, ierr := q.Insert(largeItem(sc, x))
@@ -223,9 +240,14 @@ func TestC11Large(t *testing.T) {
 		t.Skip()
 	}
 	rec := vstat.New("C11", "large")
+	w := watchPart(rec, "rapid")
+	defer w.close()
+	slot := w.slot()
 	rec.RunRapid(t, func(rt *rapid.T) {
 		sc := genLarge(rt)
-		st, err := runLarge(sc)
+		slot.begin(func() (any, string) { return sc, getWhere() })
+		st, err := runLarge(t, sc)
+		slot.end()
 		var labels []string
 		for _, b := range []int{4, 17, 33, 65, 129, 1025, 4097} {
 			if st.maxPending >= b {
@@ -538,11 +560,14 @@ func runStress(t *testing.T, sp *StressSpec) (err error) {
 	}()
 	synctest.Test(t, func(*testing.T) {
 		for r := 0; r < sp.Rounds; r++ {
+			setWhere("round %d, workload drain-to-quiescence-then-concurrent-Close: a call of the queue", r)
 			v := runStressOnce(sp)
 			if v == nil && r%2 == 1 {
+				setWhere("round %d, workload Close-under-fire (producers, a Len()/IsClosed() reader, Close): a call of the queue", r)
 				v = runCloseUnderFire(sp)
 			}
 			if v == nil && r%3 == 2 {
+				setWhere("round %d, workload drain-race (backlog drained while pairs are inserted): a call of the queue", r)
 				v = runDrainRace(sp)
 			}
 			if v != nil {
@@ -559,6 +584,9 @@ func TestC11Stress(t *testing.T) {
 		t.Skip()
 	}
 	rec := vstat.New("C11", "stress")
+	w := watchPart(rec, "rapid")
+	defer w.close()
+	slot := w.slot()
 	rec.RunRapid(t, func(rt *rapid.T) {
 		sp := &StressSpec{
 			Producers: rapid.IntRange(1, 4).Draw(rt, "producers"),
@@ -566,7 +594,9 @@ func TestC11Stress(t *testing.T) {
 			PerProd:   rapid.SampledFrom([]int{1, 2, 4, 16, 64}).Draw(rt, "per-producer"),
 			Rounds:    *c11Rounds,
 		}
+		slot.begin(func() (any, string) { return sp, getWhere() })
 		err := runStress(t, sp)
+		slot.end()
 		rec.Case(sp, sp.PerProd >= 2, fmt.Sprintf("producers=%d", sp.Producers))
 		if err != nil {
 			class := "stress"
@@ -584,7 +614,7 @@ func TestC11Stress(t *testing.T) {
 	})
 }
 
-func replayLarge(rf *vstat.ReplayFile) string {
+func replayLarge(t *testing.T, rf *vstat.ReplayFile) string {
 	var sc LargeScenario
 	if err := json.Unmarshal(rf.Scenario, &sc); err != nil {
 		return "bad scenario: " + err.Error()
@@ -592,7 +622,7 @@ func replayLarge(rf *vstat.ReplayFile) string {
 	if sc.Universe < 1 {
 		return "bad scenario: universe"
 	}
-	if _, err := runLarge(&sc); err != nil {
+	if _, err := runLarge(t, &sc); err != nil {
 		return err.Error()
 	}
 	return ""
